@@ -43,6 +43,8 @@ func storesTo(fn *ssa.Function) map[string][]string {
 // between the generated scanner and the tokens it hands out.
 func ScannerHelpers(w *World, rel string) *report.RuleResult {
 	res := report.NewResult("scanner-helpers")
+	canonParams = true
+	defer func() { canonParams = false }()
 	get := func(name string) *ssa.Function {
 		f := w.fn(rel + "." + name)
 		if f == nil {
@@ -67,18 +69,18 @@ func ScannerHelpers(w *World, rel string) *report.RuleResult {
 	}
 	if fn := get("Lexer.setTokenPosition"); fn != nil {
 		st := storesTo(fn)
-		posE := "pkg/position.Pool.Get(lex.positionPool)"
-		expect("setTokenPosition", fn, st, posE+".StartPos", "lex.ts", "the recorded start offset")
-		expect("setTokenPosition", fn, st, posE+".EndPos", "lex.te", "the recorded end offset")
-		expect("setTokenPosition", fn, st, posE+".StartLine", rel+".NewLines.GetLine(&lex.newLines, lex.ts)", "the start line")
-		expect("setTokenPosition", fn, st, posE+".EndLine", rel+".NewLines.GetLine(&lex.newLines, (lex.te-1))", "the end line (line of the last byte)")
-		expect("setTokenPosition", fn, st, "token.Position", posE, "the position object of the token")
+		posE := "pkg/position.Pool.Get($recv.positionPool)"
+		expect("setTokenPosition", fn, st, posE+".StartPos", "$recv.ts", "the recorded start offset")
+		expect("setTokenPosition", fn, st, posE+".EndPos", "$recv.te", "the recorded end offset")
+		expect("setTokenPosition", fn, st, posE+".StartLine", rel+".NewLines.GetLine(&$recv.newLines, $recv.ts)", "the start line")
+		expect("setTokenPosition", fn, st, posE+".EndLine", rel+".NewLines.GetLine(&$recv.newLines, ($recv.te-1))", "the end line (line of the last byte)")
+		expect("setTokenPosition", fn, st, "$1.Position", posE, "the position object of the token")
 	}
 	if fn := get("Lexer.addFreeFloatingToken"); fn != nil {
 		st := storesTo(fn)
-		tk := "pkg/token.Pool.Get(lex.tokenPool)"
-		expect("addFreeFloatingToken", fn, st, tk+".ID", "id", "the kind of the skipped text")
-		expect("addFreeFloatingToken", fn, st, tk+".Value", "lex.data[ps:pe]", "the skipped text")
+		tk := "pkg/token.Pool.Get($recv.tokenPool)"
+		expect("addFreeFloatingToken", fn, st, tk+".ID", "$2", "the kind of the skipped text")
+		expect("addFreeFloatingToken", fn, st, tk+".Value", "$recv.data[$3:$4]", "the skipped text")
 		// position set through setTokenPosition(skippedTkn), appended to t.FreeFloating on every path
 		setpos, appended := false, 0
 		for _, b := range fn.Blocks {
@@ -88,7 +90,7 @@ func ScannerHelpers(w *World, rel string) *report.RuleResult {
 						setpos = true
 					}
 					if bi, ok := c.Common().Value.(*ssa.Builtin); ok && bi.Name() == "append" {
-						if strings.HasSuffix(Expr(c.Common().Args[0]), "t.FreeFloating") || strings.Contains(Expr(c.Common().Args[0]), "FreeFloating") {
+						if strings.Contains(Expr(c.Common().Args[0]), "$1.FreeFloating") {
 							appended++
 						}
 					}
@@ -119,28 +121,36 @@ func ScannerHelpers(w *World, rel string) *report.RuleResult {
 	}
 	if fn := get("NewLexer"); fn != nil {
 		st := storesTo(fn)
-		expect("NewLexer", fn, st, "local.data", "data", "the scanner must work on the caller's bytes at the caller's offsets")
-		expect("NewLexer", fn, st, "local.pe", "len(data)", "end of input")
+		expect("NewLexer", fn, st, "local.data", "$1", "the scanner must work on the caller's bytes at the caller's offsets")
+		expect("NewLexer", fn, st, "local.pe", "len($1)", "end of input")
 	}
 	if fn := get("Lexer.Lex"); fn != nil {
 		st := storesTo(fn)
-		tk := "pkg/token.Pool.Get(lex.tokenPool)"
-		expect("Lex", fn, st, tk+".Value", "lex.data[lex.ts:lex.te]", "the token text")
+		tk := "pkg/token.Pool.Get($recv.tokenPool)"
+		expect("Lex", fn, st, tk+".Value", "$recv.data[$recv.ts:$recv.te]", "the token text")
 		res.Count("facts", 1)
 		ids := st[tk+".ID"]
 		res.Check(len(ids) == 1 && (strings.HasPrefix(ids[0], "phi(") || ids[0] == "local" || strings.Contains(ids[0], "tok")), "Lex/ID", w.Pos(fn.Pos()), w.Name(fn), "the token id is the value of tok", fmt.Sprintf("token id assigned from %v", ids))
 	}
 	// who writes pe / data
 	for _, fn := range w.InPkgs(rel) {
-		for f, vs := range storesTo(fn) {
-			if (strings.HasSuffix(f, ".pe") || strings.HasSuffix(f, ".data")) && strings.Contains(f, "lex") || f == "local.data" || f == "local.pe" {
-				if w.Name(fn) == rel+".NewLexer" {
+		if w.Name(fn) == rel+".NewLexer" {
+			continue
+		}
+		for _, b := range fn.Blocks {
+			for _, in := range b.Instrs {
+				st, ok := in.(*ssa.Store)
+				if !ok {
 					continue
 				}
-				if strings.HasPrefix(f, "nl.") {
+				fa, ok := st.Addr.(*ssa.FieldAddr)
+				if !ok {
 					continue
 				}
-				res.Bad("who-writes/"+w.Name(fn)+"/"+f, w.Pos(fn.Pos()), w.Name(fn), fmt.Sprintf("%s is assigned outside NewLexer (%v): offsets no longer refer to the caller's buffer", f, vs))
+				f := fieldName(fa.X.Type(), fa.Field)
+				if n := namedOf(fa.X.Type()); n != nil && n.Obj().Name() == "Lexer" && (f == "pe" || f == "data") {
+					res.Bad("who-writes/"+w.Name(fn)+"/"+f, w.Pos(fn.Pos()), w.Name(fn), fmt.Sprintf("Lexer.%s is assigned outside NewLexer (%s): offsets no longer refer to the caller's buffer", f, Expr(st.Val)))
+				}
 			}
 		}
 	}
